@@ -39,6 +39,11 @@ CHECKS = [
   'level': 'Directed right-hand side = documented negation for every flip set; returned times = forward * grid for fixed, adaptive and symplectic methods; fixed-step and symplectic drivers chain signed steps on any monotone grid; '
            'adaptive loops (RK45, DOP853, generic and Hamiltonian) never pass the end time, keep h in (0, max_step], advance only when the documented error norm <= 1, return y0 first, and a decreasing grid is rejected.',
   'note': 'adaptive loops unwound to 2 kernel calls (3 thorough) with state dimension 1; kernels, field, _select_initial_step/_error_scale/_pi_*_factor are uninterpreted with their contracts; accuracy of round trips is C02'},
+ {'id': 'C11',
+  'technique': 'QF_FP truth tables for the crossing predicates; path-exhaustive symbolic execution (z3) of the bisection refinements and of all event drivers with event function, field, kernels and interpolant uninterpreted',
+  'level': 'All float64 pairs: crossing predicates = strict direction-compatible sign change (or exact zero at the step end). Bisection: bracket invariant, halving, exit conditions, hit inside the step on the interpolant. '
+           'Drivers (fixed/RK45/DOP853 x generic/Hamiltonian, symplectic): a hit is reported at the first accepted step satisfying the rule and refined on that step, filtered directions never trigger, otherwise the last state at t_max.',
+  'note': 'bisection unwound to 3 (4 thorough) of 128 iterations; drivers to 2 (3) kernel calls / 2 grid steps; "first" is at step granularity; interpolation order is C02-(3)'},
 ]
 _BUILT = {c['id'] for c in CHECKS}
 NOT_APPLICABLE = [
